@@ -434,7 +434,10 @@ Section Eval.
                  match kr with
                  | (OVal (VStr kk), e1, s1) =>
                      match eval e1 s1 vx with
-                     | (OVal vv, e2, s2) => mk e2 s2 r (map_insert kk vv acc)
+                     | (OVal vv, e2, s2) =>
+                         (* a key written twice in one literal keeps its FIRST value (observation: the
+                            implementation builds the map from the last pair to the first) *)
+                         mk e2 s2 r (match assoc kk acc with Some _ => acc | None => map_insert kk vv acc end)
                      | other => other
                      end
                  | (OVal _, e1, s1) => (OErr XType, e1, s1)
